@@ -474,6 +474,49 @@ func (b *backend) script(pl *plan, conn net.Conn) {
 			default:
 			}
 		}
+	case "longidle":
+		up1, down1 := cfg.NUp/2, cfg.NDown/2
+		gDown := newGen(cfg.SeedDown, cfg.ClsDown)
+		for phase := 1; phase <= 2; phase++ {
+			wantUp, nDown := up1, down1
+			if phase == 2 {
+				// nothing moves until the user starts the second exchange, long after the connection was opened
+				if !waitCh(pl.phase2, pl.uDone, time.Duration(cfg.IdleMs)*time.Millisecond+2*stallGrace) {
+					return
+				}
+				wantUp, nDown = cfg.NUp, cfg.NDown-down1
+			}
+			wdone := make(chan error, 1)
+			go func() {
+				var err error
+				if phase == 1 {
+					_, err = writeAll(conn, ident)
+				}
+				if err == nil {
+					_, err = writeGen(conn, gDown, nDown, wrng, cfg.ChunkDown, false)
+				}
+				wdone <- err
+			}()
+			res := readStream(conn, ckUp, wantUp, onRead)
+			if phase == 2 {
+				res.Base = up1
+			}
+			werr := <-wdone
+			pl.bUp = res
+			if !cs.judgeRead(pl, "up", res, wantUp, false) {
+				return
+			}
+			if werr != nil {
+				cs.failUnlessPeerFailed(pl, "unprompted-close", "proxy %s: backend's write failed although neither endpoint had closed: %v", px.name, werr)
+				return
+			}
+			if phase == 1 {
+				close(pl.bGotAll)
+			} else {
+				close(pl.bGot2)
+			}
+		}
+		b.expectClose(pl, conn)
 	case "idle":
 		if _, err := writeAll(conn, ident); err != nil {
 			cs.failUnlessPeerFailed(pl, "unprompted-close", "proxy %s: backend's write failed on an idle connection: %v", px.name, err)
@@ -536,6 +579,7 @@ func waitCh(ch, abort <-chan struct{}, d time.Duration) bool {
 // stream I/O shared by both ends
 
 type readRes struct {
+	Base     int64 // bytes of N already counted by an earlier phase
 	N        int64
 	EOF      bool
 	Err      string
@@ -582,7 +626,11 @@ func writeAll(conn net.Conn, p []byte) (int, error) {
 
 // writeStream writes n bytes of the (seed, class) stream in PRNG-sized chunks up to maxChunk.
 func writeStream(conn net.Conn, seed uint64, class int, n int64, rng *rand.Rand, maxChunk int, pause bool) (int64, error) {
-	g := newGen(seed, class)
+	return writeGen(conn, newGen(seed, class), n, rng, maxChunk, pause)
+}
+
+// writeGen writes the next n bytes of g.
+func writeGen(conn net.Conn, g *sgen, n int64, rng *rand.Rand, maxChunk int, pause bool) (int64, error) {
 	buf := make([]byte, maxChunk)
 	var done int64
 	for done < n {
